@@ -16,7 +16,9 @@ package main
 import (
 	"fmt"
 	"os"
+	"path/filepath"
 	"strings"
+	"sync"
 	"time"
 
 	"verif/harness/common"
@@ -70,7 +72,8 @@ func main() {
 	if !ok {
 		res.Notes = append(res.Notes, "strace unavailable ("+why+"): protocol correspondence and fault injection skipped; stress, scenario and history oracles still run")
 	}
-	res.Rule = "non-trivial = a call that reached the lock (flock observed) / a stress or history round with contention"
+	res.Rule = "non-trivial = a call that reached the lock (flock observed) / a stress or history round with contention / a script step with its probe. " +
+		"Dimensions (CONVENTIONS addendum 4): 1 state between calls: holdseq and seq scripts in ONE process (the same Mutex value and the same paths through many Lock/unlock cycles, stale Files closed again after their descriptor number was reused, several holders, GC while held), earlier Read results re-verified after every later call, sequentially and in the multi-process histories; 2 caller's memory: slices returned by Read / handed to Write / returned by t kept and compared after every later call, aliasing transform functions; 3 resources: descriptor table and a lock probe from another process after every call of the release phase and after every step of a holdseq script; 4 sizes: seq sizes 0..9000, direct-phase blobs; 5 error paths: release / fault / fsize / limit / persist phases (one-shot and persistent); 6 n/a (contents are opaque bytes); 7 paths: relative spellings from two directories, files that do not exist yet (also raced: fresh-* histories), path unlinked / renamed during an acquisition; 8 shapes + regenerated structural constants, every oracle still runs"
 
 	if f.Replay != "" {
 		rn.replay()
@@ -106,20 +109,38 @@ func main() {
 		if want("release") {
 			rn.releasePhase()
 		}
+		if want("holdseq") {
+			rn.holdSeqPhase()
+		}
 		if want("kmodel") {
 			rn.kernelModelPhase()
 		}
 		if want("stress") {
 			rn.stressPhase()
 		}
+		if want("fresh") {
+			// files that do not exist yet, created under contention by every creating API the
+			// counter can ride on (Transform = Edit): the increments are the overlap witness
+			for r := 0; r < 2; r++ {
+				if rn.histRound("fresh-incr", 4, 3, 3, rn.rng.Uint64()%1000000) {
+					break
+				}
+			}
+		}
 		if want("scenario") {
 			rn.scenarioPhase([]string{"inherit-write", "inherit-read", "quietread-write", "quietread-create", "handover-edit", "handover-mutex", "handover3-mutex", "handover3-edit",
 				"exclhold-read", "exclhold-edit", "exclhold-mutex", "exclhold-open", "exclhold-read+append", "exclhold-edit+sync",
-				"fifohold-openfile", "fifohold-edit", "mutexperm-0444"})
+				"fifohold-openfile", "fifohold-edit", "mutexperm-0444", "unlinkrace-edit", "renamerace-mutex"})
+			if rn.f.Tier != "quick" {
+				rn.scenarioPhase([]string{"unlinkrace-read", "unlinkrace-mutex", "unlinkrace-open", "renamerace-edit"})
+			}
 		}
 	} else {
 		if want("direct") {
 			rn.directPhase()
+		}
+		if want("seq") {
+			rn.seqPhase()
 		}
 		if rn.st && want("fault") {
 			rn.faultPhase()
@@ -304,21 +325,27 @@ func (rn *runner) stressPhase() {
 	}
 }
 
-func (rn *runner) scenario(name string) scenarioResult {
+// scenario runs one scripted scenario with its files under work (a directory of its own: the
+// scenarios use fixed file names).
+func (rn *runner) scenario(name, work string) scenarioResult {
 	parts := strings.SplitN(name, "-", 2)
 	switch parts[0] {
 	case "inherit":
-		return scenarioInherit(rn.self, rn.f.Work, parts[1])
+		return scenarioInherit(rn.self, work, parts[1])
 	case "quietread":
-		return scenarioQuietRead(rn.self, rn.f.Work, parts[1])
+		return scenarioQuietRead(rn.self, work, parts[1])
 	case "handover":
-		return scenarioHandover(rn.self, rn.f.Work, parts[1])
+		return scenarioHandover(rn.self, work, parts[1])
 	case "handover3":
-		return scenarioHandover3(rn.self, rn.f.Work, parts[1])
+		return scenarioHandover3(rn.self, work, parts[1])
 	case "fifohold":
-		return scenarioFifoHold(rn.self, rn.f.Work, parts[1])
+		return scenarioFifoHold(rn.self, work, parts[1])
 	case "mutexperm":
 		return scenarioMutexPerm(rn.self)
+	case "unlinkrace":
+		return scenarioPathRace(rn.self, work, "unlink", parts[1], rn.st)
+	case "renamerace":
+		return scenarioPathRace(rn.self, work, "rename", parts[1], rn.st)
 	case "exclhold":
 		extra := 0
 		w := parts[1]
@@ -327,7 +354,7 @@ func (rn *runner) scenario(name string) scenarioResult {
 		} else if strings.HasSuffix(w, "+sync") {
 			extra, w = os.O_SYNC, strings.TrimSuffix(w, "+sync")
 		}
-		return scenarioExclHold(rn.self, rn.f.Work, w, extra)
+		return scenarioExclHold(rn.self, work, w, extra)
 	}
 	return scenarioResult{name: name, setup: "unknown scenario"}
 }
@@ -337,20 +364,59 @@ func (rn *runner) scenarioPhase(names []string) {
 	if rn.f.Tier != "quick" {
 		reps = 6
 	}
+	// the scenarios are independent (each has its own files and helper processes) and spend
+	// their time in fixed waits: four at a time.  Their oracles are one-sided (correct code
+	// cannot trip them however slow the machine is), so running them side by side cannot
+	// raise a false alarm.
+	type job struct {
+		name string
+		rep  int
+	}
+	var jobs []job
 	for _, n := range names {
 		for i := 0; i < reps; i++ {
-			s := rn.scenario(n)
-			rn.res.Case(fmt.Sprintf("scenario %s %d", n, i), s.setup == "")
-			rn.res.Count("scenario:" + n)
-			if s.setup != "" {
-				rn.res.Notes = append(rn.res.Notes, "scenario "+n+" could not be set up: "+s.setup)
-				break
+			if i > 0 && rn.f.Tier == "quick" && strings.Contains(n, "race-") {
+				break // these take a second each (delayed system calls)
 			}
-			if s.viol != "" {
-				rn.violate("impl-violation", "scenario:"+s.viol, "scenario "+n+" "+s.viol, s.detail, s.detail, "",
-					map[string]string{"kind": "scenario", "name": n})
-				break
+			jobs = append(jobs, job{n, i})
+		}
+	}
+	results := make([]scenarioResult, len(jobs))
+	sem := make(chan struct{}, 4)
+	var wg sync.WaitGroup
+	for k, j := range jobs {
+		wg.Add(1)
+		sem <- struct{}{}
+		go func(k int, j job) {
+			defer wg.Done()
+			defer func() { <-sem }()
+			work := filepath.Join(rn.f.Work, fmt.Sprintf("scenario-%d", k))
+			if err := os.MkdirAll(work, 0o777); err != nil {
+				results[k] = scenarioResult{name: j.name, setup: err.Error()}
+				return
 			}
+			results[k] = rn.scenario(j.name, work)
+			os.RemoveAll(work)
+		}(k, j)
+	}
+	wg.Wait()
+	done := map[string]bool{} // one note / one violation per scenario
+	for k, j := range jobs {
+		s := results[k]
+		rn.res.Case(fmt.Sprintf("scenario %s %d", j.name, j.rep), s.setup == "")
+		rn.res.Count("scenario:" + j.name)
+		if done[j.name] {
+			continue
+		}
+		if s.setup != "" {
+			rn.res.Notes = append(rn.res.Notes, "scenario "+j.name+" could not be set up: "+s.setup)
+			done[j.name] = true
+			continue
+		}
+		if s.viol != "" {
+			rn.violate("impl-violation", "scenario:"+s.viol, "scenario "+j.name+" "+s.viol, s.detail, s.detail, "",
+				map[string]string{"kind": "scenario", "name": j.name})
+			done[j.name] = true
 		}
 	}
 }
